@@ -340,7 +340,16 @@ def scen_dups(rng):
     return {'tree': [], 'funcs': funcs, 'steps': steps}
 
 
-VERSION_POOL = [None, 0, 1, 1.0, True, '1', [1], {'a': 1, 'b': 2}, {'b': 2, 'a': 1}, {'a': 1}, 2, False, 0.0, '', [], {}]
+VERSION_POOL = [None, 0, 1, 1.0, True, '1', [1], {'a': 1, 'b': 2}, {'b': 2, 'a': 1}, {'a': 1}, 2, False, 0.0, '', [], {},
+                # maps of the same size with different keys, one of them null-valued; nested; null in a list
+                {'opt': None, 'level': 1}, {'level': 1, 'mode': 'fast'}, {'level': 1, 'mode': None}, {'k': {'a': None}}, {'k': {'b': None}},
+                [None], [None, None], {'a': None}, {'b': None}]
+
+
+VERSION_PAIRS = [({'opt': None, 'level': 1}, {'level': 1, 'mode': 'fast'}), ({'a': None}, {'b': None}), ({'a': None}, {}), ({'a': None}, None),
+                 ({'k': {'a': None}}, {'k': {'b': None}}), ([None], []), ([None], [None, None]), (0, None), (0, False), ('', None), ([], None), ({}, None),
+                 (0.0, 0), (1, 1.0), (1, True), ({'a': 1, 'b': 2}, {'b': 2, 'a': 1}), ([1, 2], (1, 2)), ({'a': [1, 2.0]}, {'a': [1.0, 2]}), ('1', 1),
+                 (10 ** 18, 10 ** 18 + 1), (2 ** 53, 2 ** 53 + 1), (0.1 + 0.2, 0.3)]
 
 
 def scen_versions(rng):
@@ -359,7 +368,18 @@ def scen_versions(rng):
     v = {}
     steps = []
     for _ in range(rng.randint(3, 5)):
-        if rng.random() < 0.7:
+        if rng.random() < 0.3:
+            # a version followed by one that is almost - or in fact - JSON-equal to it
+            a, b = rng.choice(VERSION_PAIRS)
+            if rng.random() < 0.5:
+                a, b = b, a
+            n = rng.choice(names)
+            v = dict(v)
+            v[n] = a
+            steps.append(_build(versions=v))
+            v = dict(v)
+            v[n] = b
+        elif rng.random() < 0.7:
             v = dict(v)
             n = rng.choice(names)
             if rng.random() < 0.2 and n in v:
